@@ -1,12 +1,13 @@
 #!/bin/bash
-# Re-runs every seeded change against the check of its own property on the CURRENT tree, in parallel:
+# Re-runs seeded changes against the check of their own property on the CURRENT tree, in parallel:
 # each worker has its own copy of /verif (so that the regenerated Gen/Consts.v of one change cannot leak into another run)
-# and its own scratch worktree of /repo.  Results: $OUT/results.txt  (seed, exit code, summary line).
-#   tools/seed_regress.sh [workers=5]
-W=${1:-5}
+# and its own scratch worktree of /repo.  Results: $OUT/results.txt  (seed, summary line).
+#   tools/seed_regress.sh [workers=3] [file with one seed directory name per line; default: all of seeded/]
+W=${1:-3}
+LIST=${2:-}
 OUT=/tmp/mw
 rm -rf $OUT; mkdir -p $OUT
-ls -d /verif/seeded/C*/ | xargs -n1 basename > $OUT/all.txt
+if [ -n "$LIST" ]; then cp "$LIST" $OUT/all.txt; else ls -d /verif/seeded/C*/ | xargs -n1 basename > $OUT/all.txt; fi
 for k in $(seq 1 $W); do
   mkdir -p $OUT/w$k
   rsync -a --exclude build/run --exclude build/replay --exclude .git --exclude evidence /verif/ $OUT/w$k/verif/
@@ -25,5 +26,4 @@ for k in $(seq 1 $W); do
   ) > $OUT/w$k/log.txt 2>&1 &
 done
 wait
-sort $OUT/results.txt > $OUT/results_sorted.txt
 echo done
